@@ -421,7 +421,7 @@ def c05_t1(ctx, f):
             bad_leaf = None
             for r in rs:
                 if r.kind != "ret":
-                    val = "<%s: %s>" % (r.kind, r.why)
+                    val = "%s: %s" % (r.kind, r.why)
                     bad_leaf = bad_leaf or r
                 else:
                     pv = to_py(r.value)
@@ -436,6 +436,29 @@ def c05_t1(ctx, f):
                 else:
                     found.append((r.lo, r.hi, val))
             leaves_total += len(found)
+            # an interval the decision-tree extraction could not follow (e.g. the length is narrowed by a cast there): probe it with
+            # concrete lengths - the interval's ends and its start plus every capacity threshold (and one more) - and compare those
+            exp_fn = expected_version_fn(l, mode)
+            for r in rs:
+                if r.kind == "ret" or r.lo is None:
+                    continue
+                offs = sorted({0, 1, r.hi - r.lo} | {e[1] for e in exp_fn if e[1] < USIZE_MAX} | {e[1] + 1 for e in exp_fn if e[1] < USIZE_MAX})
+                for off in offs:
+                    n = r.lo + off
+                    if n > r.hi:
+                        continue
+                    pr = F.run(fn.path, args_for(fn, {MODE: M(mode), ECL: L(l), "usize": mk_int("usize", n)}))
+                    if pr.kind != "ret":
+                        continue
+                    pv = to_py(pr.value)
+                    val = pv["fields"][0] if isinstance(pv, dict) and pv.get("variant") == "Some" else (None if isinstance(pv, dict) and pv.get("variant") == "None" else "<?>")
+                    ev = next(e[2] for e in exp_fn if e[0] <= n <= e[1])
+                    if val != ev:
+                        ctx.check(rid, False, "%s/%s/%s/probe" % (fn.path, mode, l), where_fn(fn), fn.path, "%s/%s length %d" % (mode, l, n),
+                                  "version chosen for this length is not the smallest one whose capacity holds it (the length axis could "
+                                  "not be partitioned here - %s - so the interval %d..=%d was probed at concrete lengths)" % (r.why, r.lo, r.hi),
+                                  expected=ev, found=val)
+                        break
             # tiling
             tiles = bool(found) and found[0][0] == 0 and found[-1][1] == USIZE_MAX and all(
                 found[i][1] + 1 == found[i + 1][0] for i in range(len(found) - 1))
